@@ -350,6 +350,86 @@ def _brief(env, out):
     return str(r)[:160]
 
 
+def check_solver_history(run, rnd):
+    """Solver objects: a one-shot query or a solve() that fails with 'unknown' (the backend cannot decide the
+    formula) must leave the assertion stack as a twin solver, which never made the call, has it."""
+    from vf.brute import BruteSolver, BackendError
+    g = G(cfg=Cfg(max_depth=2, theories={"bool", "bv"}, bv_widths=[1, 2], nsyms=2), rnd=rnd)
+    env = Environment()
+    with env:
+        m = env.formula_manager
+        wide = m.BVULT(m.Symbol("wide8", env.type_manager.BVType(8)), m.BV(3, 8))      # the backend gives up on it
+        A, Bs = BruteSolver(env), BruteSolver(env)
+        depth = 0
+        hist = []
+        nfail = 0
+        try:
+            for _ in range(rnd.randint(3, 10)):
+                k = rnd.randrange(9)
+                if k <= 2:
+                    f = pys.build(env, g.term(BOOL, 2))
+                    A.add_assertion(f), Bs.add_assertion(f)
+                    hist.append("add")
+                elif k == 3:
+                    A.push(), Bs.push()
+                    depth += 1
+                    hist.append("push")
+                elif k == 4 and depth > 0:
+                    A.pop(), Bs.pop()
+                    depth -= 1
+                    hist.append("pop")
+                elif k == 5:
+                    f = pys.build(env, g.term(BOOL, 2))
+                    outs = []
+                    for sv in (A, Bs):
+                        try:
+                            outs.append(sv.is_sat(f))
+                        except BackendError:
+                            raise
+                        except Exception as e:
+                            outs.append("raised " + type(e).__name__)
+                    hist.append("is_sat")
+                    if outs[0] != outs[1]:
+                        run.case(key=("solver", tuple(hist)), nontrivial=True)
+                        run.fail({"subcheck": "trace:solver-state-differs"}, {"history": hist},
+                                 "after %s: is_sat gives %r, %r on the twin that never made the failing calls" % (hist, outs[0], outs[1]))
+                        return
+                else:
+                    how = rnd.choice(["is_sat", "is_valid", "is_unsat", "solve-assumptions"])
+                    try:
+                        if how == "solve-assumptions":
+                            A.solve([wide, m.Or(wide, m.Symbol("p0"))])
+                        else:
+                            getattr(A, how)(wide)
+                    except Exception:
+                        nfail += 1
+                        hist.append("!" + how)
+                    else:
+                        hist.append(how + "(did not fail)")
+            la, lb = list(A.assertions), list(Bs.assertions)
+            da, db = len(A.backend), len(Bs.backend)
+            ba, bb = A.backend_assertions(), Bs.backend_assertions()
+            def verdict(sv):
+                try:
+                    return sv.solve()
+                except BackendError:
+                    raise
+                except Exception as e:
+                    return "raised " + type(e).__name__
+            va, vb = verdict(A), verdict(Bs)
+        except BackendError as e:
+            run.fail({"subcheck": "trace:solver-illegal-pop"}, {"history": hist}, "illegal backend pop after %s: %s" % (hist, e))
+            return
+        run.case(key=("solver", tuple(hist)), nontrivial=nfail > 0)
+        run.cls("solver-history")
+        if nfail:
+            run.cls("injected:solver-unknown")
+        if (la, da, ba, va) != (lb, db, bb, vb):
+            run.fail({"subcheck": "trace:solver-state-differs"}, {"history": hist},
+                     "after %s: assertions %s (backend %s, depth %d, verdict %r); the twin that never made the failing calls "
+                     "has %s (backend %s, depth %d, verdict %r)" % (hist, la, ba, da - 1, va, lb, bb, db - 1, vb))
+
+
 def gen_case(rnd):
     g = G(cfg=CFG, rnd=rnd)
     probe = g.term(BOOL if g.pct(75) else g.choice([INT, REAL, BV(4)]))
@@ -385,6 +465,9 @@ def shard(shard, seed, n):
     run = Run(PID)
 
     def body(rnd):
+        if rnd.random() < 0.15:
+            check_solver_history(run, rnd)
+            return
         check_history(run, *gen_case(rnd))
     drive(body, st.randoms(use_true_random=True), n, derive_seed(seed, "c15", shard))
     return run
